@@ -10,7 +10,8 @@ ID = "C17"
 RULE = (
     "random hierarchies of depth 1-4: wide-scale root variables, children with tiny-scale Normal "
     "distributions around an affine function of their parents reached directly, through cached Calc, "
-    "TransientCalc and weak-Var intermediates; scalar/vector/matrix values with sample and batch shapes; "
+    "TransientCalc and weak-Var intermediates (wired through the Var or directly to its value node), closures and TFP classes "
+    "with positional/keyword inputs, per_obs True/False; scalar/vector/matrix values with sample and batch shapes; "
     "skip sets by variable, distribution-node and proxy-node name; both auto_update settings; repeated "
     "simulation. A child must sit at f(NEW parent draw): a stale evaluation is off by O(parent scale). "
     "non-trivial = program with a cached intermediate between a drawn parent and a drawn child, simulated "
